@@ -186,7 +186,9 @@ func contains(xs []string, x string) bool {
 //
 //	mustRefuse: at least one stated condition fails.
 //	mustAccept: every stated condition holds (and the configuration itself is well-formed).
-func (cc *certCase) oracle(v vrun) (mustAccept, mustRefuse bool, failed []string) {
+//
+// at = the time of the call (unix nanoseconds): "currently valid" means valid THEN.
+func (cc *certCase) oracle(v vrun, at int64) (mustAccept, mustRefuse bool, failed []string) {
 	fail := func(s string) { failed = append(failed, s) }
 	undetermined := false
 	if !cc.Present {
@@ -208,7 +210,7 @@ func (cc *certCase) oracle(v vrun) (mustAccept, mustRefuse bool, failed []string
 		if !chain {
 			fail("untrusted-chain")
 		}
-		if !cc.TimeOK {
+		if at < cc.NB || at > cc.NA {
 			fail("outside-validity")
 		}
 		if !ekuOK {
@@ -297,12 +299,13 @@ func (e *env) verifyTier(cases []*certCase, pinsPerMode int) {
 		exps := []string{cc.P.E, cc.P.O, "", cc.P.E + "x", cc.P.D, cc.P.DOther, cc.P.O2, fv[0], " ", leafCN}
 		add([]int{0, 1, 2, 3, 1, 2}[r.Intn(6)], []int{0, 1, 2, 3, 1, 2, 2}[r.Intn(7)], exps[r.Intn(len(exps))], r.Intn(nPins))
 		var terms []string
+		now := time.Now().UnixNano()
 		for _, v := range runs {
 			f := netceptor.ReceptorVerifyFunc(cfg, v.Pins, v.Expected, netceptor.ExpectedHostnameType(v.HType), netceptor.VerifyType(v.VType), e.lg)
 			err := f(cc.Raw, nil)
 			cl := classify(err)
 			terms = append(terms, fmt.Sprintf("(vr %s %d)", v.coqCfg(), cl))
-			mustAccept, mustRefuse, failed := cc.oracle(v)
+			mustAccept, mustRefuse, failed := cc.oracle(v, now)
 			rec := map[string]interface{}{"level": "verify-func", "cert": cc.Label, "run": v.String(), "failed_conditions": failed, "impl_error": fmt.Sprint(err)}
 			e.im.Hist(fmt.Sprintf("verify:class=%d", cl))
 			e.im.Hist("verify:pins=" + pinName[v.PinKind])
@@ -324,7 +327,7 @@ func (e *env) verifyTier(cases []*certCase, pinsPerMode int) {
 			e.im.Sample(rec)
 		}
 		e.im.Hist("cert:" + cc.Kind)
-		e.cf.Add(fmt.Sprintf("TVerify %s %s", cc.coqFacts(), CoqList(terms)), "verify-func: "+cc.Label)
+		e.cf.Add(fmt.Sprintf("TVerify %d %s %s", now, cc.coqFacts(), CoqList(terms)), "verify-func: "+cc.Label)
 	}
 }
 
@@ -409,6 +412,7 @@ func (e *env) clientTier(cases []*certCase, runsPer int) {
 		}
 		srv := &tls.Config{Certificates: []tls.Certificate{{Certificate: cc.Raw, PrivateKey: e.p.leafKey}}, MinVersion: tls.VersionTLS12}
 		var terms []string
+		now := time.Now().UnixNano()
 		odd := cc.oddExpected()
 		for k := 0; k < runsPer+2; k++ {
 			ht := []int{htRecv, htDNS, htRecv, htDNS, htDNS}[k%5]
@@ -466,7 +470,7 @@ func (e *env) clientTier(cases []*certCase, runsPer int) {
 			if tc.VerifyPeerCertificate == nil || (ht == htRecv) != tc.InsecureSkipVerify || (ht == htDNS && tc.ServerName != exp) {
 				e.im.Violate("GetClientTLSConfig: verifier missing or default host name check not as documented", "client-config-shape", rec)
 			}
-			mustAccept, mustRefuse, failed := cc.oracle(v)
+			mustAccept, mustRefuse, failed := cc.oracle(v, now)
 			rec["failed_conditions"] = failed
 			if mustRefuse && ok {
 				e.im.Violate(fmt.Sprintf("TLS client handshake SUCCEEDS although %v (%s; %s)", failed, cc.Label, v), "client-handshake-accepts:"+failed[0], rec)
@@ -475,7 +479,7 @@ func (e *env) clientTier(cases []*certCase, runsPer int) {
 				e.im.Violate(fmt.Sprintf("TLS client handshake fails although every condition holds: %v (%s; %s)", cerr, cc.Label, v), "client-handshake-refuses-good", rec)
 			}
 		}
-		e.cf.Add(fmt.Sprintf("TClient %s %s", cc.coqFacts(), CoqList(terms)), "tls client handshake: "+cc.Label)
+		e.cf.Add(fmt.Sprintf("TClient %d %s %s", now, cc.coqFacts(), CoqList(terms)), "tls client handshake: "+cc.Label)
 	}
 }
 
@@ -519,6 +523,7 @@ func (e *env) serverTier(cases []*certCase, runsPer int) {
 			continue
 		}
 		var terms []string
+		now := time.Now().UnixNano()
 		for k := 0; k < runsPer; k++ {
 			sp := sprofile{Require: r.Chance(60), CAs: true}
 			if !sp.Require && r.Chance(25) {
@@ -544,7 +549,7 @@ func (e *env) serverTier(cases []*certCase, runsPer int) {
 				continue // no client authentication configured: the property does not apply
 			}
 			v := vrun{vtClient, htDNS, "", sp.PinKind, sp.Pins}
-			mustAccept, mustRefuse, failed := cc.oracle(v)
+			mustAccept, mustRefuse, failed := cc.oracle(v, now)
 			rec["failed_conditions"] = failed
 			if mustRefuse && ok {
 				e.im.Violate(fmt.Sprintf("TLS server handshake SUCCEEDS although %v (%s; %s)", failed, cc.Label, sp), "server-handshake-accepts:"+failed[0], rec)
@@ -553,7 +558,7 @@ func (e *env) serverTier(cases []*certCase, runsPer int) {
 				e.im.Violate(fmt.Sprintf("TLS server handshake fails although every condition holds: %v (%s; %s)", serr, cc.Label, sp), "server-handshake-refuses-good", rec)
 			}
 		}
-		e.cf.Add(fmt.Sprintf("TServer %s %s", cc.coqFacts(), CoqList(terms)), "tls server handshake: "+cc.Label)
+		e.cf.Add(fmt.Sprintf("TServer %d %s %s", now, cc.coqFacts(), CoqList(terms)), "tls server handshake: "+cc.Label)
 		// the client role in receptor-name mode: the profile's verifier followed by a name verifier
 		// for an arbitrary expected ID, installed the way conn.go listen installs it per connection
 		// (on the mesh the expected ID is always a live node's ID; here it is the empty ID, a blank,
@@ -586,7 +591,7 @@ func (e *env) serverTier(cases []*certCase, runsPer int) {
 				rec := map[string]interface{}{"level": "tls-server-handshake-receptor-name", "cert": cc.Label, "run": v.String(), "impl_error": fmt.Sprint(serr)}
 				e.im.Hist(fmt.Sprintf("server-name-handshake:ok=%v", ok))
 				e.im.Count("server-name-hs "+cc.Label+" "+v.String(), true)
-				mustAccept, mustRefuse, failed := cc.oracle(v)
+				mustAccept, mustRefuse, failed := cc.oracle(v, now)
 				rec["failed_conditions"] = failed
 				if mustRefuse && ok {
 					e.im.Violate(fmt.Sprintf("TLS server handshake (receptor-name verifier) SUCCEEDS although %v (%s; %s)", failed, cc.Label, v), "server-handshake-accepts:"+failed[0], rec)
@@ -595,7 +600,7 @@ func (e *env) serverTier(cases []*certCase, runsPer int) {
 					e.im.Violate(fmt.Sprintf("TLS server handshake (receptor-name verifier) fails although every condition holds: %v (%s; %s)", serr, cc.Label, v), "server-handshake-refuses-good", rec)
 				}
 			}
-			e.cf.Add(fmt.Sprintf("TListen %s %s", cc.coqFacts(), CoqList(lterms)), "tls server handshake, receptor-name verifier for the client role: "+cc.Label)
+			e.cf.Add(fmt.Sprintf("TListen %d %s %s", now, cc.coqFacts(), CoqList(lterms)), "tls server handshake, receptor-name verifier for the client role: "+cc.Label)
 		}
 	}
 	// the configuration syntax itself refuses pins that are not sha256/sha512 sized
@@ -615,7 +620,7 @@ func (e *env) serverTier(cases []*certCase, runsPer int) {
 
 func runC09(c *Ctx) {
 	im := NewImpl("C09", c.Seed, c.Tier)
-	im.Rule = "certificates from crypto/x509 over issuer{RootCAs CA, ClientCAs CA, unrelated CA, self-signed, via intermediate presented/missing} x window{valid, expired, not yet valid} x EKU{server, client, both, neither, absent} x names{expected, other, several, none, DNS-only, DNS-other, several-without, near-miss, bad-UTF8, blank-ids = otherNames \"\" and \" \", case-fold = every spelling differing from the expected ID only by ASCII case or Unicode simple case folding k/U+212A s/U+017F, both directions} (node IDs and host names random per certificate), plus malformed presentations (no certificate, garbage, truncated, garbage second element); each shown to ReceptorVerifyFunc for both verify types x {receptor, DNS, DNS-empty} x rotating pin lists {none, sha256, sha512, sha224, sha384, miss, wrong length, match-then-wrong, wrong-then-match, miss-then-match, empty pin, match-then-miss} plus a free run (invalid types, other expected names); a sample goes through crypto/tls handshakes (client side via GetClientTLSConfig, server side via PrepareTLSServerConfig) and through DialContext/ListenAndAdvertise on a real mesh; non-trivial = a certificate was presented and parses; distinct by certificate parameters + run"
+	im.Rule = "certificates from crypto/x509 over issuer{RootCAs CA, ClientCAs CA, unrelated CA, self-signed, via intermediate presented/missing} x window{valid, expired, not yet valid} x EKU{server, client, both, neither, absent} x names{expected, other, several, none, DNS-only, DNS-other, several-without, near-miss, bad-UTF8, blank-ids = otherNames \"\" and \" \", case-fold = every spelling differing from the expected ID only by ASCII case or Unicode simple case folding k/U+212A s/U+017F, both directions} (node IDs and host names random per certificate), plus malformed presentations (no certificate, garbage, truncated, garbage second element); each shown to ReceptorVerifyFunc for both verify types x {receptor, DNS, DNS-empty} x rotating pin lists {none, sha256, sha512, sha224, sha384, miss, wrong length, match-then-wrong, wrong-then-match, miss-then-match, empty pin, match-then-miss} plus a free run (invalid types, other expected names); TIME: verifiers (ReceptorVerifyFunc closures, GetClientTLSConfig receptor-mode config, PrepareTLSServerConfig config) are built first for certificates whose window ends / begins ~6 s later, used at once and used again after the boundary, every case carrying the time of the call; a sample goes through crypto/tls handshakes (client side via GetClientTLSConfig, server side via PrepareTLSServerConfig) and through DialContext/ListenAndAdvertise on a real mesh; non-trivial = a certificate was presented and parses; distinct by certificate parameters + run"
 	cf := &CaseFile{Dir: c.Out, Prop: "C09", Imports: []string{"Model.Tls"}, CaseType: "tls_case", CheckFn: "tls_check", PerShard: 60}
 	QuietLogs()
 	lg := logger.NewReceptorLogger("")
@@ -666,6 +671,10 @@ func runC09(c *Ctx) {
 	if c.Thorough() {
 		pinsPerMode = nPins - 1
 	}
+	// time dimension, first half: build verifiers and configs now, use them at once
+	lead := 6 * time.Second
+	timed := e.timeBuild(lead)
+	e.timeCall(timed, "first-use")
 	t1 := time.Now()
 	e.verifyTier(cases, pinsPerMode)
 	im.Extra["verify_seconds"] = time.Since(t1).Seconds()
@@ -690,6 +699,10 @@ func runC09(c *Ctx) {
 	t3 := time.Now()
 	e.meshTier()
 	im.Extra["mesh_seconds"] = time.Since(t3).Seconds()
+
+	// time dimension, second half: the boundary has passed; same objects, same certificates
+	im.Extra["time_boundary_extra_wait_seconds"] = timeWaitPast(timed).Seconds()
+	e.timeCall(timed, "later-use")
 
 	Must(cf.Write())
 	Must(im.Write(c.Out))
